@@ -1114,6 +1114,10 @@ class WorkflowConductor(object):
                         if staged_next_task["ready"]:
                             staged_next_tasks.append(staged_next_task)
 
+            # Mark task as terminal when none of the transitions is taken.
+            if task_transitions and not any(task_state_entry["next"].values()):
+                task_state_entry["term"] = True
+
             # Task failure is remediable. For example, there may be workflow that wants
             # to run a cleanup task on failure. In certain cases, we still want to fail
             # the workflow after the remediation. The fail command can be in the
